@@ -41,6 +41,14 @@ def big_edit_cases(tier, seed):
                       "gen": {"kind": "edits", "seed": rnd.randrange(1 << 30), "size": size, "edits": [{"op": "ins", "off": 0, "n": 0, "m": rnd.choice([1, 5, 1000])}]}})
         cases.append({"class": "append", "bounded": True, "blk": 0, "s2": 16,
                       "gen": {"kind": "edits", "seed": rnd.randrange(1 << 30), "size": size, "edits": [{"op": "ins", "off": size, "n": 0, "m": rnd.choice([1, 5, 1000])}]}})
+        # a 3-byte edit (+1,-2,+1) that preserves the weak checksum of its block: the sender meets a false alarm
+        # (weak hit, strong miss) and must go on matching everything behind it
+        if size >= 1400:
+            for _ in range(2):
+                cases.append({"class": "weak-preserving-edit", "bounded": True, "blk": 0, "s2": 16,
+                              "gen": {"kind": "edits", "seed": rnd.randrange(1 << 30), "size": size,
+                                      "edits": [{"op": "wk", "off": rnd.randrange(1, size // 3), "n": 3, "m": 3}] +
+                                               ([{"op": "ins", "off": size // 2 + rnd.randrange(size // 4), "n": 0, "m": rnd.choice([1, 100])}] if rnd.random() < 0.5 else [])}})
         cases.append({"class": "identical", "bounded": True, "blk": 0, "s2": 16,
                       "gen": {"kind": "edits", "seed": rnd.randrange(1 << 30), "size": size, "edits": []}})
     # reference-computed checksums at other block sizes
